@@ -164,11 +164,13 @@ def check_case(case):
         out.label("flip-x-tower-beyond-window")
         ce, fe = run(q0, prof, dom, mh, (nx, jm), hv)
         cm, fm = run(q0[:, ::-1].copy(), (-u, v, Kx, Ky, Kz), dom, mh, (-1, jm), hv)
-        for name, a, b in (("conc", ce, cm[:, :, ::-1]), ("flux", fe, fm[:, :, ::-1])):
+        for name, a, b, inside in (("conc", ce, cm[:, :, ::-1], ch), ("flux", fe, fm[:, :, ::-1], fh)):
             err = tol.maxabs(a - b)
-            # (with the tower outside it the window may hold next to nothing of the footprint: the unit mass spread over
-            #  the padded domain is the scale below which differences are rounding)
-            if not err <= rel * max(tol.maxabs(a), abs(bg), 1.0 / (nxe * nye)):
+            # (with the tower outside it the window may hold next to nothing of the footprint: the scale below which
+            #  differences are rounding is the size of the same footprint where it is large - the peak of the run with the
+            #  tower inside the window, a whole-cell translate of this one - or the unit mass spread over the padded domain.
+            #  A surface-level footprint is a unit spike in the tower's cell: thorough seed 14 reported 3e-15 next to it.)
+            if not err <= rel * max(tol.maxabs(a), abs(bg), 1.0 / (nxe * nye), tol.maxabs(inside)):
                 out.bad(f"x-mirror with the tower at x = xmax (image at x = -dx), halo {hv}: {name} differs by {err:.3e} "
                         f"(padded {nxe}x{nye}, modes {mh})")
     if nye % 2 == 1 and eff[1] == nye:
